@@ -210,6 +210,8 @@ def add_special_shapes(root: File, rng) -> None:
         add_coincidence_shapes(root, rng)
     if rng.random() < 0.4:
         gen.add_empty_shapes(root, rng, ext_ok=root_has_ext(root))
+    if rng.random() < 0.4:
+        gen.add_alias_reach_shapes(root, rng)
 
 
 def add_coincidence_shapes(root: File, rng) -> None:
